@@ -330,7 +330,9 @@ func child() {
 	seed, _ := strconv.ParseInt(os.Getenv("VERIF_SEED"), 10, 64)
 	parts := strings.SplitN(w, ":", 2)
 	kind := kit.Kind(parts[1])
-	if parts[0] == "server" {
+	if w == "client:stdio-scripted" {
+		scriptedStdioClientWorkload(iters)
+	} else if parts[0] == "server" {
 		serverWorkload(kind, seed, iters)
 	} else {
 		clientWorkload(kind, iters)
@@ -341,6 +343,7 @@ func child() {
 }
 
 func main() {
+	maybeScriptServer()
 	kit.MaybeServeStdioChild()
 	if vh.ChildRole() == "c20" {
 		child()
@@ -351,7 +354,7 @@ func main() {
 	if _, err := os.Stat(raceBin); err != nil {
 		r.Fatal("race-detector flavour of the check binary not found (%s)", raceBin)
 	}
-	workloads := []string{"server:S-json", "server:S-sse", "server:L-sse", "server:stdio", "client:S-json", "client:S-sse", "client:L-sse", "client:stdio"}
+	workloads := []string{"server:S-json", "server:S-sse", "server:L-sse", "server:stdio", "client:S-json", "client:S-sse", "client:L-sse", "client:stdio", "client:stdio-scripted"}
 	procs := []int{2, 4, 16}
 	reps := r.Pick(2, 5)
 	type job struct {
